@@ -110,3 +110,30 @@ func FuzzRoundTrip(f *testing.F) {
 		return Case{Entry: names[int(b[0])%len(names)], Typ: int(b[1]), Hex: ev.H(b[2:]), Source: "fuzz"}, true
 	})
 }
+
+// notParsers: exported functions taking a []byte first that are not parsers of
+// a wire structure (covered by C04's extra table or by C12/C13).
+var notParsers = map[string]bool{
+	"key_certificate.ConstructSigningPublicKeyByType": true,
+	"data.DecodeIntN": true, "data.HashData": true, "data.ReadMappingValues": true,
+	"base32.EncodeToString": true, "base32.EncodeToStringNoPadding": true, "base32.EncodeToStringSafe": true,
+	"base64.EncodeToString": true, "base64.EncodeToStringSafe": true,
+}
+
+// TestEntryTableCoversRepo: every exported function of /repo that takes a
+// []byte first is either in the parser table or in the list above. A failure
+// carries no VIOLATION line, so the driver reports it as inconclusive.
+func TestEntryTableCoversRepo(t *testing.T) {
+	have := map[string]bool{}
+	for _, n := range lib.Names() {
+		have[n] = true
+	}
+	for _, n := range scannedByteFuncs {
+		if !have[n] && !notParsers[n] {
+			t.Errorf("exported function %s takes a []byte but is not in the parser table: the sweep over 'every parser' does not cover it", n)
+		}
+	}
+	if len(scannedByteFuncs) < 40 {
+		t.Errorf("scan of /repo found only %d byte-consuming functions", len(scannedByteFuncs))
+	}
+}
